@@ -273,6 +273,52 @@ func checkC01(r *Report) {
 // constant or a bare sign test of a semver Compare result.
 func tiebreakRule(r *Report, p *Prog, rule string, c comparator) {
 	key := fnKey(c.fn) + " (" + c.kind + ")"
+	// (1) SSA: a return of `cmp < 0` (or >, <=, >=) where cmp is the result of
+	// (*semver.Version).Compare, on a path where cmp has not been found non-zero.
+	for _, b := range c.fn.Blocks {
+		ret, ok := b.Instrs[len(b.Instrs)-1].(*ssa.Return)
+		if !ok || len(ret.Results) != 1 {
+			continue
+		}
+		bo, ok := ret.Results[0].(*ssa.BinOp)
+		if !ok || (bo.Op != token.LSS && bo.Op != token.GTR && bo.Op != token.LEQ && bo.Op != token.GEQ) {
+			continue
+		}
+		call, ok := bo.X.(*ssa.Call)
+		if !ok || staticCalleeName(call) != "(*semver.Version).Compare" {
+			continue
+		}
+		if k, ok := bo.Y.(*ssa.Const); !ok || k.Value == nil || k.Int64() != 0 {
+			continue
+		}
+		// guarded by a zero test of the same result?
+		guarded := false
+		for _, g := range c.fn.Blocks {
+			ifi, ok := g.Instrs[len(g.Instrs)-1].(*ssa.If)
+			if !ok {
+				continue
+			}
+			zt, ok := ifi.Cond.(*ssa.BinOp)
+			if !ok || (zt.Op != token.EQL && zt.Op != token.NEQ) || zt.X != ssa.Value(call) {
+				continue
+			}
+			if k, ok := zt.Y.(*ssa.Const); !ok || k.Value == nil || k.Int64() != 0 {
+				continue
+			}
+			zeroSucc := g.Succs[0]
+			if zt.Op == token.NEQ {
+				zeroSucc = g.Succs[1]
+			}
+			if guardedBy(g, zeroSucc, b) {
+				guarded = true
+			}
+		}
+		if !guarded {
+			r.bad(rule, key, p.pos(ret.Pos()), "the comparator returns a bare sign test of (*semver.Version).Compare where the result may be zero; Compare is a preorder that equates distinct strings (1.0, 1.0.0), so sort.Slice leaves their order to the input order")
+			return
+		}
+	}
+	// (2) syntax: a constant as the final fall-through return
 	lit, ok := c.fn.Syntax().(*ast.FuncLit)
 	var body *ast.BlockStmt
 	if ok {
@@ -282,7 +328,7 @@ func tiebreakRule(r *Report, p *Prog, rule string, c comparator) {
 	}
 	e := lastReturnExpr(body)
 	if e == nil {
-		r.ok(rule, key, p.pos(c.fn.Pos()), "final statement is not a single-expression return; nothing on the deny-list")
+		r.ok(rule, key, p.pos(c.fn.Pos()), "no unguarded sign test of Compare is returned and the final statement is not a single-expression return")
 		return
 	}
 	pk := p.pkgOfPos(e.Pos())
@@ -294,44 +340,7 @@ func tiebreakRule(r *Report, p *Prog, rule string, c comparator) {
 		r.bad(rule, key, p.pos(e.Pos()), "the comparator's fall-through return is the constant "+tv.Value.String()+": distinct versions that reach it are treated as equal and keep their input order")
 		return
 	}
-	if be, ok := e.(*ast.BinaryExpr); ok && (be.Op == token.LSS || be.Op == token.GTR || be.Op == token.LEQ || be.Op == token.GEQ) {
-		isSemverCompare := func(x ast.Expr) bool {
-			var call *ast.CallExpr
-			switch v := x.(type) {
-			case *ast.CallExpr:
-				call = v
-			case *ast.Ident:
-				// c := a.Compare(b); return c < 0
-				if obj := pk.TypesInfo.Uses[v]; obj != nil {
-					ast.Inspect(body, func(n ast.Node) bool {
-						if as, ok := n.(*ast.AssignStmt); ok && len(as.Lhs) == 1 && len(as.Rhs) == 1 {
-							if id, ok := as.Lhs[0].(*ast.Ident); ok && (pk.TypesInfo.Defs[id] == obj || pk.TypesInfo.Uses[id] == obj) {
-								if ce, ok := as.Rhs[0].(*ast.CallExpr); ok {
-									call = ce
-								}
-							}
-						}
-						return true
-					})
-				}
-			}
-			if call == nil {
-				return false
-			}
-			if sel, ok := call.Fun.(*ast.SelectorExpr); ok {
-				if fn, ok := pk.TypesInfo.Uses[sel.Sel].(*types.Func); ok {
-					return fn.FullName() == "(*deps.dev/util/semver.Version).Compare"
-				}
-			}
-			return false
-		}
-		if tv, ok := pk.TypesInfo.Types[be.Y]; ok && tv.Value != nil && isSemverCompare(be.X) {
-			// allowed only when guarded by c != 0 — which then cannot be the final return
-			r.bad(rule, key, p.pos(e.Pos()), "the comparator ends in a bare sign test of (*semver.Version).Compare, a preorder that equates distinct strings (1.0, 1.0.0): sort.Slice leaves their order to the input order")
-			return
-		}
-	}
-	r.ok(rule, key, p.pos(e.Pos()), "the final return is neither a constant nor a bare sign test of (*semver.Version).Compare: "+types.ExprString(e))
+	r.ok(rule, key, p.pos(e.Pos()), "every returned sign test of (*semver.Version).Compare is guarded by a non-zero test, and the final return is not a constant: "+types.ExprString(e))
 }
 
 func checkC12(r *Report) {
@@ -379,6 +388,14 @@ func checkC12(r *Report) {
 	}
 	r.floor("C12.c/BORROWED-ARG", "call sites of MatchRequirement", n, 2)
 	exactTagRule(r, p)
+	var matchFns []*ssa.Function
+	for _, f := range pkgFuncs(p, "resolve") {
+		if strings.HasSuffix(p.Fset.Position(f.Pos()).Filename, "/match.go") {
+			matchFns = append(matchFns, f)
+		}
+	}
+	n2 := sortSelfRule(r, p, "C12.e/SORT-SELF", matchFns)
+	r.floor("C12.e/SORT-SELF", "sort.Slice calls in match.go", n2, 3)
 }
 
 // exactTagRule (C12.d): when an npm requirement is not a range, a version is
